@@ -107,11 +107,16 @@ func (s *streamHTTP) writeMsg(c Codec, b []byte, contentType string) (int, error
 	return count, s.opts.writeAll(s.w, b)
 }
 
-func (s *streamHTTP) SendMsg(m interface{}) error {
+func (s *streamHTTP) SendMsg(m interface{}) (err error) {
 	reply := m.(proto.Message)
 
 	if fRsp, ok := s.w.(http.Flusher); ok {
-		defer fRsp.Flush()
+		defer func() {
+			// A failed send must not commit a 200 header before the error is encoded.
+			if err == nil {
+				fRsp.Flush()
+			}
+		}()
 	}
 
 	cur := reply.ProtoReflect()
